@@ -168,6 +168,27 @@ def run_property(pid, tier, seed=0, only_rule=None, quiet=False, repo=None, writ
             liveness.append({"mutant": spec["name"], "re_detected": ok, "reported": keys[:6]})
             if not quiet:
                 print("%s mutant %-48s %s" % ("selftest:" if ok else "SELFTEST-MISS:", spec["name"], "; ".join(keys)[:160]))
+    silent_on = []
+    if tier == "thorough" and write_evidence and repo is None and not only_rule:
+        # the other direction: a sample (chosen by the seed) of the behaviour-preserving refactorings of benign/ must
+        # leave this property silent; reported as SELFTEST-FALSE-ALARM (a defect of the checker, not of the repo)
+        import random, selftest
+        ben = [sp for sp in selftest.load_specs() if sp.get("benign")]
+        random.Random("%s-%s" % (pid, seed)).shuffle(ben)
+        for spec in ben[:int(os.environ.get("VCHECK_BENIGN_SAMPLE", "10"))]:
+            d = selftest.scratch_copy()
+            try:
+                selftest.apply_patch(d, spec["patch"])
+                new2, _, _ = run_property(pid, "quick", quiet=True, repo=d, write_evidence=False)
+                keys = ["%s %s" % (o.rule, o.key) for o in new2]
+            except Exception as e:
+                keys = ["error: %r" % e]
+            finally:
+                import shutil
+                shutil.rmtree(d, ignore_errors=True)
+            silent_on.append({"refactoring": spec["name"], "silent": not keys, "alarms": keys[:4]})
+            if not quiet:
+                print("%s refactoring %-42s %s" % ("selftest:" if not keys else "SELFTEST-FALSE-ALARM:", spec["name"], "; ".join(keys)[:160]))
     wall = time.time() - t0
     if write_evidence:
         samples = []
@@ -203,6 +224,7 @@ def run_property(pid, tier, seed=0, only_rule=None, quiet=False, repo=None, writ
                 "known_findings_hit": [o.key for o, _ in known_hit],
                 "anchor_failures": anchor_failures,
                 "mutants_re_detected": liveness,
+                "refactorings_silent": silent_on,
                 "selftest_last_complete_run": _last_selftest(),
                 "helpers_inlined": {k: v for k, v in list(getattr(F, "inlined", {}).items())[:20]},
                 "exhaustive": True,
